@@ -24,10 +24,13 @@
    op 6  _retry in a time-indexed environment (IO/RetryEnv.v): the fd becomes ready at tick tau, spurious readiness at
          the ticks `spur`; the callback and the selector are functions of the virtual time
          input  L [A 6; tmo T; tmo ri; A tau; L [A s ...]]                               output as op 0
+   op 8  real loopback sockets (TCPNetworkClient.recv_packet / iter_received_packets, StreamEndpoint over real TLS):
+         input  L [A 8; A N; A bufsize; A ncalls; tmo T (inf or 0); stream spec (B | L [A seed; A len]); ...]
+         output L [L [A 0; digest packet] | L [A code] ...]
    op 7  AsyncClientRecvIterator: iter_received_packets(timeout=T) on the asyncio backend, one __anext__ per arrival
          input  L [A 7; tmo T; L [A d (packet after d ticks, 0 = buffered) | A (-1) (connection error) ...]]
          output L [L [A code; A dt] ...]                                                                      *)
-From EN Require Import Lib.Bytes Lib.Sx IO.Retry IO.RetryEnv IO.SendAll IO.SendMsg IO.Budget Gen.ParamsC11.
+From EN Require Import Lib.Bytes Lib.Sx IO.Retry IO.RetryEnv IO.SendAll IO.SendMsg IO.Budget IO.Payload Gen.ParamsC11.
 Open Scope Z_scope.
 
 Definition as_tmo (x : sx) : option tmo := as_opt as_Z x.
@@ -220,6 +223,18 @@ Definition run (i : sx) : sx :=
                           | RFuel => (9, L [])
                           end in
       L [A code; ret; L (map of_wait (rr_waits r)); A (rr_dt r)]
+  | L (A 8 :: A N :: A bufsize :: A ncalls :: T :: stream :: _) =>
+      (* real sockets: the whole stream is (eventually) there, then EOF; only outcomes (packet digests) are compared *)
+      do T <- as_tmo T; do stream <- as_chunk stream;
+      let script := [RData stream 0] in
+      let F := recv_fuel script in
+      let steps := iter_run F None (Z.to_nat N) (Z.to_nat bufsize) F T (repeat LFree (Z.to_nat ncalls)) [] false script [] in
+      (* with T = inf / 0 and no waits the budget never changes between calls, so iter_run = a sequence of calls *)
+      L (map (fun st => match it_out st with
+                        | RvPkt p => L [A 0; digest p]
+                        | RvExc c => L [A c]
+                        | RvFuel => L [A 9]
+                        end) steps)
   | L (A 7 :: T :: arr :: _) =>
       do T <- as_tmo T;
       do arr <- as_list_of (fun x => match x with A d => Some (if d <? 0 then ArrErr else ArrAfter d) | _ => None end) arr;
